@@ -11,6 +11,18 @@ theorem pathCount_append (a b : List Seg) : pathCount (a ++ b) = pathCount a + p
   | nil => simp [pathCount]
   | cons s t ih => simp [pathCount, ih]; omega
 
+/-- Confederation segments count for nothing: discarding them from an AS4_PATH leaves its count. -/
+theorem pathCount_plainSegs (s : List Seg) : pathCount (plainSegs s) = pathCount s := by
+  induction s with
+  | nil => rfl
+  | cons x t ih =>
+    unfold plainSegs at ih ⊢
+    by_cases h1 : x.1 = 1
+    · simp [List.filter_cons, h1, pathCount, ih]
+    · by_cases h2 : x.1 = 2
+      · simp [List.filter_cons, h2, pathCount, ih]
+      · simp [List.filter_cons, h1, h2, pathCount, segCount, ih]
+
 /-- `takeUnits k` keeps a leading part that counts for exactly `k` AS numbers. -/
 theorem pathCount_takeUnits (s : List Seg) (k : Nat) (h : k ≤ pathCount s) :
     pathCount (takeUnits k s) = k := by
